@@ -306,10 +306,10 @@ def run(ctx, rep):
     for cfg in ctx.configs():
         nobj, nalloc, nsched, nloops = run_config(ctx, rep, cfg)
         if cfg is None:
-            rep.floor("C11.R1", "stack objects with reads", nobj, 50)
-            rep.floor("C11.R3", "allocation sites", nalloc, 7)
-            rep.floor("C11.R5", "(keying function, schedule field) pairs", nsched, 13)
-            rep.floor("C11.R6", "schedule loops", nloops, 20)
+            rep.floor("C11.R1", "stack objects with reads", nobj, 35)
+            rep.floor("C11.R3", "allocation sites", nalloc, 4)
+            rep.floor("C11.R5", "(keying function, schedule field) pairs", nsched, 9)
+            rep.floor("C11.R6", "schedule loops", nloops, 12)
         else:
             ctx.release(cfg)
     from ..report import Report
